@@ -281,6 +281,11 @@ func BuildUnion(query *Query, expr *sqlparser.Union) error {
 	query.selectDefinition.Exprs = []sqlparser.SelectExpr{&sqlparser.StarExpr{}}
 	// UNION removes duplicates, UNION ALL keeps them
 	query.distinct = expr.Distinct
+	// a trailing ORDER BY / LIMIT belongs to the union as a whole
+	err = BuildOrder(query, &expr.OrderBy)
+	if err != nil {
+		return err
+	}
 	err = BuildLimit(query, expr.Limit)
 	if err != nil {
 		return err
